@@ -15,11 +15,12 @@ different damping, or a mode and a real pole) whose identified natural frequenci
 quantifier asks for simple eigenvalues, not for distinct frequencies; every frequency must still get ITS OWN variance.
 """
 import collections
+import hashlib
 import itertools
 
 import numpy as np
 
-from mc import payload
+from mc import looks, payload
 from mc.core import Tally
 
 ID = "C17"
@@ -418,6 +419,13 @@ def judge_class(t, case, ssi, data, refs, l, br, n, nb, Fc_fun, cells):
         alg = SSIcov(name="s", br=br, ordmax=n, ref_ind=None if len(refs) == l else list(refs), calc_unc=True, nb=nb, hc=hc)
         ss.add_algorithms(alg)
         ss.run_by_name("s")
+        # run, LOOK, then read: on a fixed third of the class-route cases the charts of the algorithm (read-only operations,
+        # mc/looks.py) are drawn before the variance table is read; the chart with error bars is handed that very table
+        pick = int(hashlib.sha1(repr(sorted((k, repr(v)) for k, v in case.items())).encode()).hexdigest(), 16)
+        if pick % 3 == 0:
+            f_hi = 0.25 / DT
+            for name, err in looks.look_at_alg(alg, pick // 3, (0.0, f_hi)):
+                t.outcomes[f"class:looked-at-algorithm-before-reading:{name}" + (":raised" if err else "")] += 1
         got = alg.result.Fn_poles_cov
     except Exception as e:
         t.violation(f"class:raises:{type(e).__name__}", f"SSIcov(calc_unc=True).run raised {e!r}", case)
@@ -743,7 +751,7 @@ def explore(ctx):
     items += eq_items
     items.sort(key=lambda it: -(it[5][0] * it[4] ** 2 * (it[3] + 1) ** 2 * it[1] * len(it[2])))
     ctx.pmap(_slice, items, chunksize=1)
-    ctx.require("level:1", "level:1e-09", "exact:judged", "data:judged", "factor:holds", "factor:remainder-record-judged", "factor:vec-order-decidable", "additivity:holds", "class:holds",
+    ctx.require("level:1", "level:1e-09", "exact:judged", "data:judged", "factor:holds", "factor:remainder-record-judged", "factor:vec-order-decidable", "additivity:holds", "class:holds", "class:looked-at-algorithm-before-reading:plot_stab",
                 "order-below-ordmax-judged", "columns:1", "columns:20")
     ctx.require("eq:exact:coincident-poles-judged", "eq:data:coincident-poles-judged", "eq:two-modes:judged", "eq:mode-and-real-pole:judged",
                 "eq:coincident-poles-adjacent-in-the-pole-list:judged", "eq/additivity:holds", "eq/class:holds", "eq/factor:holds",
